@@ -39,13 +39,13 @@ def opValidate (args : List String) : String :=
   | [e, st, s, ao, ae] =>
     match optInt e, parseStream st, parseStatus s, bool01 ao, bool01 ae with
     | some e, some st, some s, some ao, some ae =>
-      showVerdict (validate ⟨e, st, none, none, true⟩ ⟨s, ao, ae⟩)
+      showVerdict (validate ⟨e, st, none, none, true, 0⟩ ⟨s, ao, ae⟩)
     | _, _, _, _, _ => "bad-op"
   | _ => "bad-op"
 
 /-- a scripted test: configuration, prepared output, duration of the command (`none` = the
-runner ignores the limit and no time passes) and `config.wait` (ms that pass between the
-computation of the limit and the start of the command) -/
+runner ignores the limit and no time passes) and `config.wait` (ms that pass before the
+remaining time of the document is looked at) -/
 structure ST where
   tc : TC
   out : Out
@@ -57,7 +57,7 @@ def parseTest (s : String) : Option ST :=
   let go (e st sk to ae0 status ao ae dur : String) (wait : Option Nat) : Option ST :=
     match optInt e, parseStream st, optInt sk, optNat to, bool01 ae0, parseStatus status, bool01 ao, bool01 ae, optNat dur, wait with
     | some e, some st, some sk, some to, some ae0, some status, some ao, some ae, some dur, some wait =>
-      some ⟨⟨e, st, sk, to, ae0⟩, ⟨status, ao, ae⟩, dur, wait⟩
+      some ⟨⟨e, st, sk, to, ae0, wait⟩, ⟨status, ao, ae⟩, dur, wait⟩
     | _, _, _, _, _, _, _, _, _, _ => none
   match s.splitOn "," with
   | [e, st, sk, to, ae0, status, ao, ae, dur] => go e st sk to ae0 status ao ae dur (some 0)
@@ -78,7 +78,7 @@ def mkRunner (tests : Array ST) : Runner := fun i lim =>
   match tests[i]? with
   | none => (⟨.unknown, false, false⟩, 0)
   | some ⟨_, o, none, _⟩ => (o, 0)               -- scripted: ignores the limit, no time passes
-  | some ⟨_, o, some dur, wait⟩ => honestWait (fun _ => (wait, dur, o)) i lim
+  | some ⟨_, o, some dur, _⟩ => honest (fun _ => (dur, o)) i lim
 
 /-- is the limit handed for test `i` attributed to the document? recomputed for display only -/
 def limitsShown (total : Option Nat) (tests : List ST) (limits : List (Option Nat)) : String :=
